@@ -7,6 +7,7 @@ import (
 	"os"
 	"path/filepath"
 	"sort"
+	"strconv"
 	"strings"
 
 	"golang.org/x/tools/go/callgraph"
@@ -735,3 +736,5 @@ func sortedKeys[M ~map[string]V, V any](m M) []string {
 	sort.Strings(ks)
 	return ks
 }
+
+func unquote(s string) (string, error) { return strconv.Unquote(s) }
